@@ -131,3 +131,23 @@ Example C13_generated_example :
   end.
 Proof. vm_compute. split; reflexivity. Qed.
 Print Assumptions C13_generated_example.
+
+(* END TO END.  A grammar the up-front check accepts -- when the token kinds it is given are all kinds the call maker
+   knows (an instance lemma re-proved on every run for the token set of the real generator, which since fix [see DESIGN]
+   is restricted to the kinds a generated parser can match) and the literals carry their quotes -- yields, through the
+   generator model, a module none of whose runs ends in AttributeError for a missing method: any input, any entry rule,
+   any configuration.  (RuleCheckProofs: acceptance = every leaf is a rule or a token; GenRefs: then every emitted call
+   resolves; ExecRefs: then no run raises AttributeError.) *)
+From Pegen Require Import Proofs.GenAccepted.
+Theorem C13_accepted_grammars_resolve :
+  forall K toks verbose use_cache aeval exact_types token_dict tbl tokens invalid_tbl iter_fields pre suf file fb g an M,
+  fields_ok tbl -> forallb is_tok tokens = true -> strs_rules g = true ->
+  check_grammar tbl tokens g = None ->
+  generate invalid_tbl iter_fields pre suf file fb g an = inl M ->
+  forall fuel n st, find_meth M n <> None ->
+  match fst (run K toks verbose use_cache M aeval exact_types token_dict fuel n st) with
+  | Raise (XAttributeError _) => False
+  | _ => True
+  end.
+Proof. exact accepted_grammars_resolve. Qed.
+Print Assumptions C13_accepted_grammars_resolve.
